@@ -266,3 +266,587 @@ Proof. unfold cited_before. rewrite firstn_length_app. apply cited_in. Qed.
 Lemma cited_before_all evs j :
   cited_before evs (length evs) j = true <-> In (EFull j) evs.
 Proof. unfold cited_before. rewrite firstn_all. apply cited_in. Qed.
+
+(* ================================================================== *)
+(* the intended grouping, pointwise                                    *)
+(* ================================================================== *)
+
+Definition tgt (cases : list case_desc) (all : list event) (mx : N) (n : nat) (prev : option nat)
+           (e : event) : option nat :=
+  match e with
+  | EFull i => Some i
+  | EShort i ante _ => if ante || rv_unique cases all n i then Some i else None
+  | ESupra i | ERef i => Some i
+  | EId pin => match prev with
+               | Some j => if pin_ok mx (cd_page (the_case cases j)) pin then Some j else None
+               | None => None
+               end
+  | EOther => None
+  end.
+
+Definition prev_of (l : list (option nat)) (n : nat) : option nat :=
+  match n with O => None | S m => nth m l None end.
+
+Lemma intended_from_cons cases all mx n prev e r :
+  intended_from cases all mx n prev (e :: r) =
+  tgt cases all mx n prev e :: intended_from cases all mx (S n) (tgt cases all mx n prev e) r.
+Proof. destruct e; reflexivity. Qed.
+
+Lemma intended_from_length cases all mx l : forall o pv,
+  length (intended_from cases all mx o pv l) = length l.
+Proof.
+  induction l as [|e l IH]; intros o pv; [reflexivity|].
+  rewrite intended_from_cons. cbn [length]. rewrite IH. reflexivity.
+Qed.
+
+Lemma intended_from_nth cases all mx l : forall o pv m e,
+  nth_error l m = Some e ->
+  nth_error (intended_from cases all mx o pv l) m =
+  Some (tgt cases all mx (o + m)
+            (match m with O => pv | S m' => nth m' (intended_from cases all mx o pv l) None end) e).
+Proof.
+  induction l as [|a l IH]; intros o pv m e H; [destruct m; discriminate H|].
+  rewrite intended_from_cons. destruct m as [|m]; cbn [nth_error] in *.
+  - injection H as ->. rewrite Nat.add_0_r. reflexivity.
+  - rewrite (IH _ _ _ _ H). replace (S o + m) with (o + S m) by lia.
+    cbn [nth]. destruct m; reflexivity.
+Qed.
+
+Lemma intended_nth cases evs mx n e :
+  nth_error evs n = Some e ->
+  nth_error (intended cases evs mx) n =
+  Some (tgt cases evs mx n (prev_of (intended cases evs mx) n) e).
+Proof. intros H. unfold intended. rewrite (intended_from_nth _ _ _ _ _ _ _ _ H). reflexivity. Qed.
+
+Lemma intended_length cases evs mx : length (intended cases evs mx) = length evs.
+Proof. apply intended_from_length. Qed.
+
+(* every "Id. at PIN" pin is in the range where `digits` is the decimal rendering *)
+Definition pins_small (evs : list event) : Prop :=
+  forall n p, nth_error evs n = Some (EId (Some p)) -> (p < 10 ^ 40)%N.
+
+(* ================================================================== *)
+(* scenarios                                                           *)
+(* ================================================================== *)
+
+Definition nth_cit (cases : list case_desc) (evs : list event) (n : nat) : cit :=
+  nth n (render cases evs) (base_cit 0 Unknown).
+
+Section Scenario.
+Variable cases : list case_desc.
+Variable evs : list event.
+Variable mx : N.
+Hypothesis Hok : scenario_ok cases evs mx.
+Hypothesis Hpins : pins_small evs.
+
+Notation cs i := (the_case cases i).
+Notation ck i := (case_key (the_case cases i)).
+
+Definition keyopt (t : option nat) : option key :=
+  match t with Some j => Some (ck j) | None => None end.
+
+Lemma full_bound j : In (EFull j) evs -> j < length cases.
+Proof.
+  intros H. apply In_nth_error in H. destruct H as [n Hn]. exact (so_events _ _ _ Hok n _ Hn).
+Qed.
+
+Lemma ck_inj i j : i < length cases -> j < length cases -> ck i = ck j -> i = j.
+Proof.
+  intros Hi Hj E. destruct (Nat.eq_dec i j) as [|Hne]; [assumption|].
+  exfalso. exact (so_keys _ _ _ Hok i j Hi Hj Hne E).
+Qed.
+
+Lemma page_small j : j < length cases -> (cd_page (cs j) < 10 ^ 40)%N.
+Proof.
+  intros Hj. pose proof (so_pages _ _ _ Hok j Hj) as H.
+  assert (H3 : (10 ^ 30 < 10 ^ 40)%N) by (vm_compute; reflexivity).
+  lia.
+Qed.
+
+(* entries of rendered full citations of events in l1 *)
+Definition FE (l1 : list event) (G : list full_entry) : Prop :=
+  forall f k, In (f, k) G ->
+    exists o' j, In (EFull j) l1 /\ j < length cases /\
+                 f = render_event cases o' (EFull j) /\ k = ck j.
+
+Lemma FE_fulls l1 : (forall j, In (EFull j) l1 -> j < length cases) -> FE l1 (fulls_of (render cases l1)).
+Proof.
+  intros Hb f k H. destruct (fulls_in_inv _ _ _ _ _ H) as [o' [j [Hin [E1 E2]]]].
+  exists o', j. repeat split; auto.
+Qed.
+
+Lemma FE_filter l1 G (p : full_entry -> bool) : FE l1 G -> FE l1 (filter p G).
+Proof. intros H f k Hin. apply filter_In in Hin. apply H. tauto. Qed.
+
+(* ---- antecedent / reference / short-form candidate tests on rendered fulls ---- *)
+
+Lemma df_truthy i : i < length cases -> truthy_s (Some (cd_df (cs i))) = true.
+Proof.
+  intros Hi. destruct (so_names _ _ _ Hok i Hi) as [H _].
+  destruct (cd_df (cs i)); [congruence|reflexivity].
+Qed.
+
+Lemma ante_same i o' : i < length cases ->
+  ante_matches (cd_df (cs i)) (render_event cases o' (EFull i)) = true.
+Proof.
+  intros Hi. unfold ante_matches. cbn [render_event c_cls c_defendant c_plaintiff cls_eqb].
+  rewrite (df_truthy i Hi), infixb_refl. reflexivity.
+Qed.
+
+Lemma ante_diff i j o' : i < length cases -> j < length cases -> i <> j ->
+  ante_matches (cd_df (cs i)) (render_event cases o' (EFull j)) = false.
+Proof.
+  intros Hi Hj Hne. unfold ante_matches. cbn [render_event c_cls c_defendant c_plaintiff cls_eqb].
+  destruct (so_disjoint _ _ _ Hok i j Hi Hj Hne) as [H1 H2]. rewrite H1, H2, !andb_false_r. reflexivity.
+Qed.
+
+Lemma ref_same i o' :
+  ref_matches [cd_df (cs i)] (render_event cases o' (EFull i)) = true.
+Proof.
+  unfold ref_matches. cbn [render_event c_meta_values existsb].
+  rewrite str_eqb_refl. cbn [orb]. rewrite orb_true_r. reflexivity.
+Qed.
+
+Lemma ref_diff i j o' : i < length cases -> j < length cases -> i <> j ->
+  ref_matches [cd_df (cs i)] (render_event cases o' (EFull j)) = false.
+Proof.
+  intros Hi Hj Hne. unfold ref_matches. cbn [render_event c_meta_values existsb].
+  destruct (so_disjoint _ _ _ Hok i j Hi Hj Hne) as [H1 H2].
+  destruct (str_eqb_spec (cd_pl (cs j)) (cd_df (cs i))) as [E|_].
+  { rewrite E, infixb_refl in H2. discriminate. }
+  destruct (str_eqb_spec (cd_df (cs j)) (cd_df (cs i))) as [E|_].
+  { rewrite E, infixb_refl in H1. discriminate. }
+  reflexivity.
+Qed.
+
+Lemma short_cond i ante pin n j o' :
+  let c := render_event cases n (EShort i ante pin) in
+  let f := render_event cases o' (EFull j) in
+  cls_eqb (c_cls f) FullCase &&
+  match corrected_reporter c, corrected_reporter f with
+  | Ok rc, Ok rf => ostr_eqb rc rf
+  | _, _ => false
+  end &&
+  ostr_eqb (gget k_volume (c_groups c)) (gget k_volume (c_groups f))
+  = str_eqb (cd_rep (cs i)) (cd_rep (cs j)) && str_eqb (cd_vol (cs i)) (cd_vol (cs j)).
+Proof. reflexivity. Qed.
+
+(* ---- the candidate sets name exactly one case ---- *)
+
+Lemma only_key_ante l1 G i :
+  FE l1 G -> i < length cases ->
+  (exists o', In (render_event cases o' (EFull i), ck i) G) ->
+  only_key (ck i) (ante_candidates (cd_df (cs i)) G).
+Proof.
+  intros HFE Hi [o' Hin]. unfold only_key, ante_candidates. split.
+  - apply in_map_iff. exists (render_event cases o' (EFull i), ck i). split; [reflexivity|].
+    apply filter_In. split; [exact Hin|]. cbn [fst]. apply ante_same; exact Hi.
+  - intros k' Hk'. apply in_map_iff in Hk'. destruct Hk' as [[f k] [E Hf]]. cbn [snd] in E. subst k'.
+    apply filter_In in Hf. destruct Hf as [Hf Hm]. cbn [fst] in Hm.
+    destruct (HFE _ _ Hf) as [o2 [j [_ [Hj [-> ->]]]]].
+    destruct (Nat.eq_dec i j) as [->|Hne]; [reflexivity|].
+    rewrite (ante_diff i j o2 Hi Hj Hne) in Hm. discriminate.
+Qed.
+
+Lemma only_key_ref l1 G i :
+  FE l1 G -> i < length cases ->
+  (exists o', In (render_event cases o' (EFull i), ck i) G) ->
+  only_key (ck i) (ref_candidates [cd_df (cs i)] G).
+Proof.
+  intros HFE Hi [o' Hin]. unfold only_key, ref_candidates. split.
+  - apply in_map_iff. exists (render_event cases o' (EFull i), ck i). split; [reflexivity|].
+    apply filter_In. split; [exact Hin|]. cbn [fst]. apply ref_same.
+  - intros k' Hk'. apply in_map_iff in Hk'. destruct Hk' as [[f k] [E Hf]]. cbn [snd] in E. subst k'.
+    apply filter_In in Hf. destruct Hf as [Hf Hm]. cbn [fst] in Hm.
+    destruct (HFE _ _ Hf) as [o2 [j [_ [Hj [-> ->]]]]].
+    destruct (Nat.eq_dec i j) as [->|Hne]; [reflexivity|].
+    rewrite (ref_diff i j o2 Hi Hj Hne) in Hm. discriminate.
+Qed.
+
+(* ---- short forms ---- *)
+
+Lemma short_finish_only c K k : only_key k K -> short_finish c K = Ok (Some k).
+Proof.
+  intros H. apply unique_key_spec in H. unfold unique_key in H. unfold short_finish.
+  destruct (dedup_keys (map snd K) []) as [|a [|b t]] eqn:Ed; try discriminate H.
+  injection H as ->. rewrite (dedup_single_head _ _ Ed). reflexivity.
+Qed.
+
+Lemma short_finish_two c K k1 k2 :
+  In k1 (map snd K) -> In k2 (map snd K) -> k1 <> k2 ->
+  short_finish c K = if truthy_s (c_antecedent c)
+                     then Ok (filter_by_antecedent K (c_ante_stripped c)) else Ok None.
+Proof.
+  intros H1 H2 Hne. unfold short_finish.
+  destruct (dedup_keys (map snd K) []) as [|a [|b t]] eqn:Ed; try reflexivity.
+  exfalso. assert (Hu : unique_key (map snd K) = Some a) by (unfold unique_key; rewrite Ed; reflexivity).
+  apply unique_key_spec in Hu. destruct Hu as [_ Hu]. apply Hne. rewrite (Hu _ H1), (Hu _ H2). reflexivity.
+Qed.
+
+Lemma rv_unique_true n i :
+  rv_unique cases evs n i = true ->
+  forall j, j < length cases -> cited_before evs n j = true -> same_rv (cs i) (cs j) = true -> i = j.
+Proof.
+  unfold rv_unique. intros H j Hj Hc Hs. rewrite forallb_forall in H.
+  assert (Hin : In j (seq 0 (length cases))) by (apply in_seq; lia).
+  specialize (H j Hin). rewrite Hc, Hs in H. cbn [negb orb] in H. rewrite orb_false_r in H.
+  apply Nat.eqb_eq. exact H.
+Qed.
+
+Lemma rv_unique_false n i :
+  rv_unique cases evs n i = false ->
+  exists j, j < length cases /\ cited_before evs n j = true /\ same_rv (cs i) (cs j) = true /\ i <> j.
+Proof.
+  unfold rv_unique. intros H. apply forallb_false_ex in H. destruct H as [j [Hin Hf]].
+  apply in_seq in Hin. exists j. split; [lia|].
+  apply orb_false_iff in Hf. destruct Hf as [Hf H3]. apply orb_false_iff in Hf. destruct Hf as [H1 H2].
+  apply negb_false_iff in H1, H3. apply Nat.eqb_neq in H2. auto.
+Qed.
+
+Lemma same_rv_cond a b :
+  str_eqb (cd_rep a) (cd_rep b) && str_eqb (cd_vol a) (cd_vol b) = same_rv a b.
+Proof. unfold same_rv. apply andb_comm. Qed.
+
+Lemma short_resolves l1 l2 i ante pin rr :
+  evs = l1 ++ EShort i ante pin :: l2 ->
+  resolve_short (render_event cases (length l1) (EShort i ante pin)) (fulls_of (render cases l1)) = Ok rr ->
+  rr = keyopt (tgt cases evs mx (length l1) None (EShort i ante pin)).
+Proof.
+  intros Hevs Hres. set (n := length l1) in *. set (c := render_event cases n (EShort i ante pin)) in *.
+  set (F := fulls_of (render cases l1)) in *.
+  assert (Hb : forall j, In (EFull j) l1 -> j < length cases).
+  { intros j Hj. apply full_bound. rewrite Hevs. apply in_or_app. left; exact Hj. }
+  assert (Hev : nth_error evs n = Some (EShort i ante pin)).
+  { rewrite Hevs. unfold n. rewrite nth_error_app2 by lia. rewrite Nat.sub_diag. reflexivity. }
+  pose proof (so_events _ _ _ Hok n _ Hev) as [Hi Hci].
+  assert (Hcb : forall j, cited_before evs n j = true <-> In (EFull j) l1).
+  { intros j. rewrite Hevs. apply cited_before_split. }
+  rewrite resolve_short_eq in Hres. apply short_go_spec in Hres. cbn [rev app] in Hres.
+  set (K := short_candidates c F) in *.
+  assert (HFE : FE l1 K) by (apply FE_filter, FE_fulls; exact Hb).
+  (* a cited case with the same volume and reporter is a candidate *)
+  assert (HinK : forall j, In (EFull j) l1 -> same_rv (cs i) (cs j) = true ->
+                           exists o', In (render_event cases o' (EFull j), ck j) K).
+  { intros j Hj Hs. destruct (fulls_in_intro cases l1 0 j Hj) as [o' Ho]. exists o'.
+    apply filter_In. split; [exact Ho|]. cbn [fst]. unfold c.
+    rewrite (short_cond i ante pin n j o'), same_rv_cond. exact Hs. }
+  assert (HK : forall f k, In (f, k) K -> exists j, In (EFull j) l1 /\ j < length cases /\
+                                                     same_rv (cs i) (cs j) = true /\ k = ck j).
+  { intros f k Hin. destruct (HFE _ _ Hin) as [o' [j [Hj [Hjb [-> ->]]]]].
+    apply filter_In in Hin. destruct Hin as [_ Hc]. cbn [fst] in Hc. unfold c in Hc.
+    rewrite (short_cond i ante pin n j o'), same_rv_cond in Hc. exists j. auto. }
+  assert (Hrefl : same_rv (cs i) (cs i) = true) by (unfold same_rv; rewrite !str_eqb_refl; reflexivity).
+  assert (Hself : exists o', In (render_event cases o' (EFull i), ck i) K).
+  { apply HinK; [apply Hcb; exact Hci|exact Hrefl]. }
+  cbn [tgt]. destruct (rv_unique cases evs n i) eqn:Erv.
+  - (* one candidate case *)
+    rewrite orb_true_r. cbn [keyopt].
+    assert (Hok1 : only_key (ck i) K).
+    { destruct Hself as [o' Ho]. split.
+      - apply in_map_iff. exists (render_event cases o' (EFull i), ck i). split; [reflexivity|exact Ho].
+      - intros k' Hk'. apply in_map_iff in Hk'. destruct Hk' as [[f k] [E Hf]]. cbn [snd] in E. subst k'.
+        destruct (HK _ _ Hf) as [j [Hj [Hjb [Hs ->]]]].
+        rewrite (rv_unique_true n i Erv j Hjb (proj2 (Hcb j) Hj) Hs). reflexivity. }
+    rewrite (short_finish_only c K _ Hok1) in Hres. injection Hres as <-. reflexivity.
+  - (* several candidate cases: the antecedent decides *)
+    destruct (rv_unique_false n i Erv) as [j [Hjb [Hcj [Hs Hne]]]].
+    destruct Hself as [o1 Ho1]. destruct (HinK j (proj1 (Hcb j) Hcj) Hs) as [o2 Ho2].
+    assert (Hkne : ck i <> ck j) by (intros E; apply Hne; apply ck_inj; assumption).
+    rewrite (short_finish_two c K (ck i) (ck j)) in Hres; [| | |exact Hkne].
+    2:{ apply in_map_iff. exists (render_event cases o1 (EFull i), ck i). split; [reflexivity|exact Ho1]. }
+    2:{ apply in_map_iff. exists (render_event cases o2 (EFull j), ck j). split; [reflexivity|exact Ho2]. }
+    rewrite orb_false_r. unfold c in Hres. cbn [render_event c_antecedent c_ante_stripped] in Hres.
+    destruct ante.
+    + rewrite (df_truthy i Hi) in Hres. injection Hres as <-. cbn [keyopt].
+      apply unique_key_spec. apply (only_key_ante l1 K i HFE Hi). exists o1; exact Ho1.
+    + cbn [truthy_s] in Hres. injection Hres as <-. reflexivity.
+Qed.
+
+(* ---- id. ---- *)
+
+Lemma Ok_inj {A} (a b : A) : Ok a = Ok b -> a = b.
+Proof. intros H. congruence. Qed.
+
+Lemma gget_page c pg : gget k_page (case_groups c pg) = Some pg.
+Proof. reflexivity. Qed.
+
+Lemma invalid_pin_full o o' j pin :
+  (cd_page (cs j) < 10 ^ 40)%N -> (forall p, pin = Some p -> (p < 10 ^ 40)%N) ->
+  has_invalid_pin DASCII mx (render_event cases o' (EFull j)) (render_event cases o (EId pin)) =
+  Ok (negb (pin_ok mx (cd_page (cs j)) pin)).
+Proof.
+  intros Hpg Hpin. unfold has_invalid_pin. cbn [render_event c_cls c_groups c_pin cls_eqb].
+  rewrite gget_page. cbn [andb].
+  destruct pin as [p|]; [|reflexivity].
+  assert (Ht : truthy_s (Some (AT ++ digits p)) = true) by reflexivity. rewrite Ht. cbn [negb].
+  rewrite digits_isdigit. cbn [negb]. rewrite (digits_int _ Hpg), pin_number_at.
+  rewrite (digits_int p (Hpin p eq_refl)). unfold pin_ok.
+  rewrite negb_andb, !N.leb_antisym, !negb_involutive. reflexivity.
+Qed.
+
+Lemma id_resolves l1 pin s0 pv rr :
+  Inv (render cases l1) s0 -> (forall j, In (EFull j) l1 -> j < length cases) ->
+  lastr s0 = keyopt pv -> (forall j, pv = Some j -> j < length cases) ->
+  (forall p, pin = Some p -> (p < 10 ^ 40)%N) ->
+  resolve_id DASCII mx (render_event cases (length l1) (EId pin)) s0 = Ok rr ->
+  rr = keyopt (tgt cases evs mx (length l1) pv (EId pin)).
+Proof.
+  intros HI Hb Hl Hpv Hpin Hres. unfold resolve_id in Hres. rewrite Hl in Hres. cbn [tgt].
+  destruct pv as [j|]; cbn [keyopt] in *; [|injection Hres as <-; reflexivity].
+  destruct (group_of (ck j) (res s0)) as [[|h t]|] eqn:Eg; try discriminate Hres.
+  apply group_of_in in Eg. destruct (inv_groups _ _ HI _ _ Eg) as [h' [t' [E [Hf [Hk [_ Hsub]]]]]].
+  injection E as <- <-.
+  assert (Hin : In h (render cases l1)) by (eapply sublist_In; [exact Hsub|left; reflexivity]).
+  destruct (in_render_inv _ _ _ _ Hin) as [o' [e [He ->]]].
+  destruct e; try discriminate Hf.
+  rewrite key_of_full in Hk. apply Ok_inj in Hk.
+  assert (i = j) by (apply ck_inj; [apply Hb; exact He|apply Hpv; reflexivity|exact Hk]). subst i.
+  rewrite (invalid_pin_full (length l1) o' j pin) in Hres;
+    [|apply page_small; apply Hpv; reflexivity|exact Hpin].
+  cbn [bind] in Hres. injection Hres as <-.
+  destruct (pin_ok mx (cd_page (cs j)) pin); reflexivity.
+Qed.
+
+(* ---- every citation's resolver returns the intended case ---- *)
+
+Lemma resolver_tgt l1 e l2 s0 pv rr fl :
+  evs = l1 ++ e :: l2 ->
+  Inv (render cases l1) s0 ->
+  lastr s0 = keyopt pv -> (forall j, pv = Some j -> j < length cases) ->
+  resolver DASCII mx s0 (render_event cases (length l1) e) = Ok (rr, fl) ->
+  rr = keyopt (tgt cases evs mx (length l1) pv e).
+Proof.
+  intros Hevs HI Hl Hpv Hres. set (n := length l1) in *.
+  assert (Hb : forall j, In (EFull j) l1 -> j < length cases).
+  { intros j Hj. apply full_bound. rewrite Hevs. apply in_or_app. left; exact Hj. }
+  assert (Hev : nth_error evs n = Some e).
+  { rewrite Hevs. unfold n. rewrite nth_error_app2 by lia. rewrite Nat.sub_diag. reflexivity. }
+  pose proof (so_events _ _ _ Hok n _ Hev) as Hse.
+  assert (Hcb : forall j, cited_before evs n j = true <-> In (EFull j) l1).
+  { intros j. rewrite Hevs. apply cited_before_split. }
+  pose proof (inv_fulls _ _ HI) as HF.
+  assert (HFE : FE l1 (fulls_of (render cases l1))) by (apply FE_fulls; exact Hb).
+  unfold resolver in Hres. destruct e; cbn [render_event c_cls base_cit] in Hres.
+  - (* full *)
+    change (key_of _) with (@Ok key (ck i)) in Hres.
+    cbn [bind] in Hres. injection Hres as <- _. reflexivity.
+  - (* short *)
+    rewrite HF in Hres.
+    destruct (resolve_short _ (fulls_of (render cases l1))) as [r0|err] eqn:Er; cbn [bind] in Hres;
+      [|discriminate Hres].
+    injection Hres as <- _.
+    rewrite (short_resolves l1 l2 i ante pin r0 Hevs Er). reflexivity.
+  - (* supra *)
+    injection Hres as <- _. rewrite HF. destruct Hse as [Hi Hci]. cbn [tgt keyopt].
+    apply resolve_supra_spec. cbn [c_antecedent c_ante_stripped]. split; [apply df_truthy; exact Hi|].
+    apply (only_key_ante l1 _ i HFE Hi). apply (fulls_in_intro cases l1 0 i). apply Hcb; exact Hci.
+  - (* reference *)
+    injection Hres as <- _. rewrite HF. destruct Hse as [Hi Hci]. cbn [tgt keyopt].
+    apply resolve_ref_spec. cbn [c_names]. split; [discriminate|].
+    apply (only_key_ref l1 _ i HFE Hi). apply (fulls_in_intro cases l1 0 i). apply Hcb; exact Hci.
+  - (* id *)
+    match type of Hres with context [resolve_id ?D ?m ?c ?s] =>
+      destruct (resolve_id D m c s) as [r0|err] eqn:Er end; cbn [bind] in Hres; [|discriminate Hres].
+    injection Hres as <- _.
+    apply (id_resolves l1 pin s0 pv r0 HI Hb Hl Hpv); [|exact Er].
+    intros p ->. exact (Hpins n p Hev).
+  - (* other *)
+    injection Hres as <- _. reflexivity.
+Qed.
+
+Lemma intended_bound : forall n j,
+  nth_error (intended cases evs mx) n = Some (Some j) -> j < length cases.
+Proof.
+  induction n as [|n IH]; intros j H.
+  - destruct (nth_error evs 0) as [e|] eqn:Ee.
+    + rewrite (intended_nth _ _ _ _ _ Ee) in H. injection H as H.
+      pose proof (so_events _ _ _ Hok 0 e Ee) as Hse. cbn [prev_of] in H.
+      destruct e; cbn [tgt] in H; try discriminate H.
+      * injection H as <-. exact Hse.
+      * destruct (ante || rv_unique cases evs 0 i); [|discriminate H]. injection H as <-. tauto.
+      * injection H as <-. tauto.
+      * injection H as <-. tauto.
+    + apply nth_error_None in Ee. rewrite <- intended_length with (cases := cases) (mx := mx) in Ee.
+      apply nth_error_None in Ee. congruence.
+  - destruct (nth_error evs (S n)) as [e|] eqn:Ee.
+    + rewrite (intended_nth _ _ _ _ _ Ee) in H. injection H as H.
+      pose proof (so_events _ _ _ Hok (S n) e Ee) as Hse. cbn [prev_of] in H.
+      destruct e; cbn [tgt] in H; try discriminate H.
+      * injection H as <-. exact Hse.
+      * destruct (ante || rv_unique cases evs (S n) i); [|discriminate H]. injection H as <-. tauto.
+      * injection H as <-. tauto.
+      * injection H as <-. tauto.
+      * destruct (nth n (intended cases evs mx) None) as [j'|] eqn:En; [|discriminate H].
+        destruct (pin_ok mx (cd_page (cs j')) pin); [|discriminate H]. injection H as <-.
+        apply IH. assert (Hlt : n < length (intended cases evs mx)).
+        { rewrite intended_length. apply Nat.lt_succ_l. apply nth_error_Some. congruence. }
+        rewrite (nth_error_nth' _ None Hlt). rewrite En. reflexivity.
+    + apply nth_error_None in Ee. rewrite <- intended_length with (cases := cases) (mx := mx) in Ee.
+      apply nth_error_None in Ee. congruence.
+Qed.
+
+Lemma prev_bound n j : prev_of (intended cases evs mx) n = Some j -> j < length cases.
+Proof.
+  destruct n as [|n]; cbn [prev_of]; [discriminate|]. intros H.
+  destruct (Nat.lt_ge_cases n (length (intended cases evs mx))) as [Hlt|Hge].
+  - apply (intended_bound n). rewrite (nth_error_nth' _ None Hlt), H. reflexivity.
+  - rewrite nth_overflow in H by exact Hge. discriminate.
+Qed.
+
+(* last_resolution after a prefix = the case intended for its last citation *)
+Lemma lastr_prefix : forall l1 l2 s0,
+  evs = l1 ++ l2 -> run DASCII mx rinit (render cases l1) = Ok s0 ->
+  lastr s0 = keyopt (prev_of (intended cases evs mx) (length l1)).
+Proof.
+  induction l1 as [|e l1 IH] using rev_ind; intros l2 s0 Hevs Hrun.
+  - cbn in Hrun. injection Hrun as <-. reflexivity.
+  - rewrite <- app_assoc in Hevs. cbn [app] in Hevs.
+    rewrite render_snoc, run_app in Hrun.
+    destruct (run DASCII mx rinit (render cases l1)) as [s1|err] eqn:E1; cbn [bind run] in Hrun;
+      [|discriminate Hrun].
+    destruct (Resolve.step DASCII mx s1 (render_event cases (length l1) e)) as [s2|err] eqn:E2;
+      cbn [bind] in Hrun; [|discriminate Hrun].
+    injection Hrun as <-.
+    destruct (step_ok _ _ _ _ _ E2) as [r [fl [Hres ->]]]. cbn [lastr].
+    assert (HI : Inv (render cases l1) s1).
+    { apply (inv_run DASCII mx (render cases l1) [] rinit s1); [apply render_oids_ok|apply inv_init|exact E1]. }
+    rewrite (resolver_tgt l1 e l2 s1 _ r fl Hevs HI (IH _ _ Hevs eq_refl) (prev_bound _) Hres).
+    rewrite app_length. cbn [length]. rewrite Nat.add_1_r. cbn [prev_of].
+    assert (Hev : nth_error evs (length l1) = Some e).
+    { rewrite Hevs. rewrite nth_error_app2 by lia. rewrite Nat.sub_diag. reflexivity. }
+    rewrite (nth_error_nth _ _ None (intended_nth _ _ mx _ _ Hev)). reflexivity.
+Qed.
+
+(* ---- assembling ---- *)
+
+Lemma nth_cit_split l1 e l2 :
+  evs = l1 ++ e :: l2 -> nth_cit cases evs (length l1) = render_event cases (length l1) e.
+Proof.
+  intros Hevs. unfold nth_cit. rewrite Hevs, render_split.
+  rewrite app_nth2 by (unfold render; rewrite render_from_length; lia).
+  unfold render. rewrite render_from_length, Nat.sub_diag. reflexivity.
+Qed.
+
+Lemma intended_event n t :
+  nth_error (intended cases evs mx) n = Some t -> exists e, nth_error evs n = Some e.
+Proof.
+  intros H. destruct (nth_error evs n) as [e|] eqn:Ee; [eauto|].
+  apply nth_error_None in Ee. rewrite <- intended_length with (cases := cases) (mx := mx) in Ee.
+  apply nth_error_None in Ee. congruence.
+Qed.
+
+(* the citation written for event n is attached to exactly the intended case *)
+Lemma own_resolution r n e :
+  resolve DASCII mx (render cases evs) = Ok r -> nth_error evs n = Some e ->
+  forall k, member r k (nth_cit cases evs n) <->
+            keyopt (tgt cases evs mx n (prev_of (intended cases evs mx) n) e) = Some k.
+Proof.
+  intros Hr Hev k. destruct (nth_error_split _ _ Hev) as [l1 [l2 [Hevs Hlen]]]. subst n.
+  rewrite (nth_cit_split l1 e l2 Hevs).
+  pose proof (render_oids_ok cases evs) as Hoid.
+  assert (Hsplit : render cases evs = render cases l1 ++ render_event cases (length l1) e ::
+                                      render_from cases (S (length l1)) l2).
+  { rewrite Hevs at 1. apply render_split. }
+  rewrite Hsplit in Hr, Hoid.
+  destruct (own_step DASCII mx _ _ _ r Hoid Hr) as [s0 [rr [fl [Hrun [HI [Hres [_ Hm]]]]]]].
+  pose proof (lastr_prefix l1 (e :: l2) s0 Hevs Hrun) as Hl.
+  rewrite (resolver_tgt l1 e l2 s0 _ rr fl Hevs HI Hl (prev_bound _) Hres) in Hm.
+  apply Hm.
+Qed.
+
+Theorem scenario_resolution_sec :
+  exists r, resolve DASCII mx (render cases evs) = Ok r /\
+    (forall n i, nth_error (intended cases evs mx) n = Some (Some i) ->
+                 member r (ck i) (nth_cit cases evs n)) /\
+    (forall n, nth_error (intended cases evs mx) n = Some None ->
+               forall k, ~ member r k (nth_cit cases evs n)) /\
+    (forall k, In k (map fst r) <->
+               exists i, i < length cases /\ cited_before evs (length evs) i = true /\ k = ck i).
+Proof.
+  pose proof (render_oids_ok cases evs) as Hoid.
+  destruct (resolve_total DASCII mx (render cases evs) Hoid (render_wf _ _)) as [r Hr].
+  exists r. split; [exact Hr|]. split; [|split].
+  - intros n i Hn. destruct (intended_event _ _ Hn) as [e He].
+    rewrite (intended_nth _ _ mx _ _ He) in Hn. injection Hn as Hn.
+    apply (own_resolution r n e Hr He). rewrite Hn. reflexivity.
+  - intros n Hn k Hm. destruct (intended_event _ _ Hn) as [e He].
+    rewrite (intended_nth _ _ mx _ _ He) in Hn. injection Hn as Hn.
+    apply (own_resolution r n e Hr He) in Hm. rewrite Hn in Hm. discriminate Hm.
+  - intros k. split.
+    + intros Hin. apply in_map_iff in Hin. destruct Hin as [[k' m] [E Hin]]. cbn [fst] in E. subst k'.
+      destruct (resolve_group_head DASCII mx _ _ Hoid Hr k m Hin) as [h [t [-> [Hf Hk]]]].
+      pose proof (resolve_groups_sublist DASCII mx _ _ Hoid Hr k _ Hin) as Hsub.
+      assert (Hh : In h (render cases evs)) by (eapply sublist_In; [exact Hsub|left; reflexivity]).
+      destruct (in_render_inv _ _ _ _ Hh) as [o' [e [He ->]]].
+      destruct e; try discriminate Hf. rewrite key_of_full in Hk. apply Ok_inj in Hk.
+      exists i. split; [apply full_bound; exact He|]. split; [apply cited_before_all; exact He|].
+      symmetry; exact Hk.
+    + intros [i [Hi [Hc ->]]]. apply cited_before_all in Hc.
+      destruct (in_render_intro cases evs 0 _ Hc) as [o' Ho].
+      destruct (resolve_full_grouped DASCII mx _ _ Hoid Hr _ Ho eq_refl) as [k [Hk [m [Hin _]]]].
+      rewrite key_of_full in Hk. apply Ok_inj in Hk. subst k. eapply in_fst; exact Hin.
+Qed.
+
+End Scenario.
+
+(* ================================================================== *)
+(* C05                                                                 *)
+(* ================================================================== *)
+
+Theorem scenario_resolution : forall cases evs mx,
+  scenario_ok cases evs mx -> pins_small evs ->
+  exists r, resolve DASCII mx (render cases evs) = Ok r /\
+    (* every reference the author could resolve is grouped with the case it was written for *)
+    (forall n i, nth_error (intended cases evs mx) n = Some (Some i) ->
+                 member r (case_key (the_case cases i)) (nth_cit cases evs n)) /\
+    (* the others (impossible id. pin cite, id. after an unresolved citation, ambiguous short form,
+       section-sign citations) are left out rather than attached elsewhere *)
+    (forall n, nth_error (intended cases evs mx) n = Some None ->
+               forall k, ~ member r k (nth_cit cases evs n)) /\
+    (* exactly one resource per distinct case cited in full *)
+    (forall k, In k (map fst r) <->
+               exists i, (i < length cases)%nat /\ cited_before evs (length evs) i = true /\
+                         k = case_key (the_case cases i)).
+Proof. intros cases evs mx Hok Hpins. exact (scenario_resolution_sec cases evs mx Hok Hpins). Qed.
+
+(* ================================================================== *)
+(* the hypothesis pins_small is needed                                 *)
+(* ================================================================== *)
+
+(* One case "1 U 5", cited in full and followed by "Id. at 10^40+5".  The author's pin is far
+   outside the opinion, so `intended` leaves the id. out; but `digits` (fuel 40) renders the pin
+   as "00...05", which the model reads as page 5 and attaches to the case. *)
+Definition cex_cases : list case_desc :=
+  [{| cd_vol := [49%N]; cd_rep := [85%N]; cd_page := 5%N; cd_pl := [65%N]; cd_df := [66%N] |}].
+Definition cex_evs : list event := [EFull 0; EId (Some (10 ^ 40 + 5)%N)].
+
+Lemma cex_ok : scenario_ok cex_cases cex_evs 150%N.
+Proof.
+  constructor.
+  - intros i j Hi Hj Hne. cbn in Hi, Hj. lia.
+  - intros i Hi. cbn in Hi. assert (i = 0) by lia. subst i. split; discriminate.
+  - intros i j Hi Hj Hne. cbn in Hi, Hj. lia.
+  - intros n e H. destruct n as [|[|n]]; cbn [nth_error cex_evs] in H.
+    + assert (E : e = EFull 0) by congruence. subst e. cbn [length cex_cases]. lia.
+    + assert (E : e = EId (Some (10 ^ 40 + 5)%N)) by congruence. subst e. exact I.
+    + destruct n; discriminate H.
+  - intros i Hi. cbn in Hi. assert (i = 0) by lia. subst i. vm_compute. reflexivity.
+Qed.
+
+Theorem scenario_resolution_needs_small_pins :
+  ~ (forall cases evs mx, scenario_ok cases evs mx ->
+       exists r, resolve DASCII mx (render cases evs) = Ok r /\
+         (forall n i, nth_error (intended cases evs mx) n = Some (Some i) ->
+                      member r (case_key (the_case cases i)) (nth_cit cases evs n)) /\
+         (forall n, nth_error (intended cases evs mx) n = Some None ->
+                    forall k, ~ member r k (nth_cit cases evs n)) /\
+         (forall k, In k (map fst r) <->
+                    exists i, (i < length cases)%nat /\ cited_before evs (length evs) i = true /\
+                              k = case_key (the_case cases i))).
+Proof.
+  intros H. destruct (H _ _ _ cex_ok) as [r [Hr [_ [H3 _]]]].
+  assert (Hn : nth_error (intended cex_cases cex_evs 150%N) 1 = Some None) by (vm_compute; reflexivity).
+  apply (H3 1 Hn (case_key (the_case cex_cases 0))).
+  vm_compute in Hr. injection Hr as <-.
+  eexists. split; [left; reflexivity|]. right; left. vm_compute. reflexivity.
+Qed.
